@@ -197,6 +197,7 @@ func init() {
 			c.OnStartup(mk("startup"))
 			c.OnRestart(mk("restart"))
 			c.OnRestartFailed(mk("restartfailed"))
+			c.OnRestartFailed(mk("restartfailedb")) // a second one: an error from the first does not keep it from running
 			c.OnShutdown(mk("shutdown"))
 			c.OnShutdown(mk("shutdownb")) // a second one: all of them run
 			c.OnFinalShutdown(mk("finalshutdown"))
@@ -380,6 +381,11 @@ func (r *lcRig) callback(label, kind string) error {
 		if kind == "shutdown" && a.kind == rkShutdownCb && label == a.old {
 			r.c.Fault("shutdown-callback-fails")
 			return fmt.Errorf("injected shutdown callback failure")
+		}
+		if kind == "restartfailed" && label == a.old && len(label)%2 == 0 {
+			// (what a restart-failed callback returns is logged; the others still run)
+			r.c.Fault("restart-failed-callback-reports-an-error")
+			return fmt.Errorf("injected restart-failed callback failure")
 		}
 		if kind == "restart" && a.kind == rkRestartCb && label == a.old {
 			r.c.Fault("restart-callback-fails")
@@ -669,6 +675,12 @@ func (r *lcRig) secondStart() {
 	}
 }
 
+// opsStuckOn: the history ended while the operator was still waiting for this signal-driven
+// reload to finish (its last restart-failed callback never came).
+func (r *lcRig) opsStuckOn(a *lcAttempt) bool {
+	return a.end < 0 && !r.opsDone && !r.exited && a == r.cur
+}
+
 func (r *lcRig) nextSeq() int { r.cbSeq++; return r.cbSeq }
 
 func (r *lcRig) lastAttempt(neu string) *lcAttempt {
@@ -702,7 +714,7 @@ func (r *lcRig) pollSigReload() {
 		return
 	}
 	for _, e := range r.trace[a.begin:] {
-		if e.kind == "cb:restartfailed" && e.inst == a.old {
+		if e.kind == "cb:restartfailedb" && e.inst == a.old { // (the last of the restart-failed callbacks)
 			r.endAttempt(false, "restartfailed seen")
 			return
 		}
@@ -964,6 +976,9 @@ func (r *lcRig) check() {
 		} else {
 			if complete && nFailed != 1 {
 				c.Violate("C16/restartfailed-count", rkNames[a.kind], "failed reload (%s) %s->%s: restart-failed callback of the old instance ran %d times", rkNames[a.kind], a.old, a.neu, nFailed)
+			}
+			if nb := count("cb:restartfailedb", a.old, lo, hi); nFailed == 1 && nb != 1 && (complete || a.viaSig && r.opsStuckOn(a)) {
+				c.Violate("C16/restartfailed-count", "second-callback", "failed reload (%s) %s->%s: the first restart-failed callback of the old instance ran, the second one ran %d times", rkNames[a.kind], a.old, a.neu, nb)
 			}
 			if nShut > 0 || nStop > 0 {
 				c.Violate("C16/old-touched-on-failed-reload", rkNames[a.kind], "failed reload (%s) %s->%s: old instance saw shutdown callbacks=%d, server stops=%d", rkNames[a.kind], a.old, a.neu, nShut, nStop)
